@@ -314,8 +314,12 @@ def big_jobs(rng, tier, mk_terms, add):
                 for mk in mk_terms:
                     if src == "range" and len(sh) > 1:
                         continue
-                    p = gen_prog(rng, src=src, shape=sh, n=8, nt=rng.choice([None, 4, 8]),
-                                 cs=rng.choice([None, ("cs", 64), ("csmin", 16), ("cs", 1024)]))
+                    # (by-value iterator sources hand out tickets one pull at a time: with chunk 1 - what Auto
+                    #  resolves to for an unknown length - and eight spinning threads, 10^5 elements take minutes
+                    #  on a loaded machine; big programs over such sources always get chunks >= 64)
+                    cs_ = rng.choice([("cs", 64), ("csmin", 64), ("cs", 1024)]) if src in ("iterx", "iter") else \
+                        rng.choice([None, ("cs", 64), ("csmin", 16), ("cs", 1024)])
+                    p = gen_prog(rng, src=src, shape=sh, n=8, nt=rng.choice([None, 4, 8]), cs=cs_)
                     for o in p["ops"]:
                         if o["k"] == "flat":
                             o["tt"] = [x[:2] for x in o["tt"]]
